@@ -36,7 +36,7 @@ def main():
     res = {"dir": d}
     wt = tempfile.mkdtemp(prefix="seedwt-")
     os.rmdir(wt)
-    rc, out = sh(["git", "-C", REPO, "worktree", "add", "-q", "--detach", wt, "HEAD"])
+    rc, out = sh(["git", "-C", REPO, "worktree", "add", "-q", "--detach", wt, os.environ.get("SEEDTEST_BASE", "HEAD")])
     if rc != 0:
         print(out); sys.exit(2)
     try:
